@@ -77,6 +77,11 @@ class RecClient(C.GenericClient):
                         "new": native(kw.get("newobj")), "old": native(kw.get("cachedobj")),
                         "step": self.currentStep, "partial": self.isPartiallyProcessed,
                         "retry": self.isAnErrorRetry}
+                try:
+                    eq = self._GenericClient__datamodel.errorqueue
+                    call["qobjs"] = [(lev.objtype, lev.objpkey) for (rev, lev, msg) in eq._queue.values()]
+                except Exception:  # noqa
+                    call["qobjs"] = None
                 if name == "on_save":
                     self.world["calls"].append({"h": "on_save", "out": "ok"})
                     return
